@@ -216,10 +216,16 @@ class World(object):
         from clastic import Application, StaticApplication
         self.tree = tree
         self.prefix = prefix
-        self.roots = {False: ['root'], True: ['root', 'root2'], 'reversed': ['root2', 'root'], 'nested': ['root', 'root2']}[two_paths]
+        self.roots = {False: ['root'], True: ['root', 'root2'], 'reversed': ['root2', 'root'], 'nested': ['root', 'root2'], 'index0': ['root', 'root2']}[two_paths]
         s1 = StaticApplication([os.path.join(tree.base, r) for r in self.roots])
         s2 = StaticApplication(tree.fb)
-        if two_paths == 'nested':
+        if two_paths == 'index0':
+            # the way Application.serve() mounts a static directory: added at the head of a live application
+            self.roots = ['root', 'root2']
+            s1 = StaticApplication([os.path.join(tree.base, r) for r in self.roots])
+            self.app = Application([(prefix, s2)], slash_mode=mode)
+            self.app.add((prefix, s1), 0)
+        elif two_paths == 'nested':
             # mounted under /s in an application that is itself embedded under /v1
             inner = Application([('/s', s1), ('/s', s2)], slash_mode=mode)
             self.app = Application([('/v1', inner)], slash_mode=mode)
@@ -309,6 +315,7 @@ def configs(tier):
     out.append(('/', 'strict', 'reversed'))
     out.append(('/v1/s', 'redirect', 'nested'))
     out.append(('/v1/s', 'strict', 'nested'))
+    out.append(('/s', 'redirect', 'index0'))
     return out
 
 
